@@ -38,13 +38,13 @@ FOCI_LAYOUT=['readme','step_name','rule_pattern','rule_prefix','inspection_run',
 class SignedBytes(Obligation):
     name='signed_bytes'
     hash_order='fixed'
-    def __init__(self,what='link',nbytes=2,seed=0,known=(),rate=40,prop='C05',**kw):
-        self.what=what; self.nbytes=nbytes; self.seed=seed; self.rate=rate; self.known=set(known); self.prop=prop
-        self.name='%s.signed_bytes_%s'%(prop,what)
+    def __init__(self,what='link',nbytes=2,seed=0,known=(),rate=40,prop='C05',wire=False,**kw):
+        self.what=what; self.nbytes=nbytes; self.seed=seed; self.rate=rate; self.known=set(known); self.prop=prop; self.wire=wire
+        self.name='%s.%s_%s'%(prop,'wire_trip' if wire else 'signed_bytes',what)
         self.bounds={'metadata':what+' of fixed small shape (1 material, 1 product, 1 environment entry, byproducts with stdout/stderr/return-value and one extra field; layout: 1 step with 2 rules, 1 inspection, 1 key)',
                      'focus_string':'one string-bearing field at a time holds 0..%d free ASCII bytes (every control character, quote, backslash, DEL; and fixed non-ASCII samples); fields: %s'%(nbytes,', '.join(FOCI_LINK if what=='link' else FOCI_LAYOUT)),
                      'numbers':'threshold any u32 and return-value any i32 (in the paths whose focus is the numbers; otherwise fixed), digest bytes free','expiry':'fixed whole-second instants (text formatting of instants is chrono\'s; C06/C16 relate text and instant)'}
-        self.witnesses=['verified_bytes_read_back','sign_and_verify_bytes_equal']; self.seen=set()
+        self.witnesses=['verified_bytes_read_back','sign_and_verify_bytes_equal']+(['wire_trip_verified'] if wire else []); self.seen=set()
     # ------------------------------------------------------------------ engine setup
     def setup(self,eng,tier):
         self.eng=eng; self.b=B(eng)
@@ -70,6 +70,22 @@ class SignedBytes(Obligation):
             bx=eng.call_fn(run,self.f_into_trait,[meta3])
             bld=eng.call_fn(run,self.f_from,[bx])
             r3=eng.call_fn(run,self.f_sign,[bld,keys])
+            if self.wire and deref(r2).vname=='Ok':
+                # the wire trip: what Metablock::new produced is written as JSON, read back on two channels and verified again
+                from mirsym import models_serde as ms, models_de as md
+                from mirsym.models import clone_val
+                run.ghost['wire']=[]
+                try:
+                    v=ms.ser_value(eng,run,deref(r2).f[0])
+                    for ch in ('borrowed','tree'):
+                        try:
+                            mb2=md.de_type(eng,run,'Metablock',clone_val(v),ch)
+                            n0=len(run.ghost['msgs'])
+                            rw=eng.call_fn(run,self.f_verify,[Ref(Cell(mb2)),Int(32,False,1),VecO([Ref(Cell(key))])])
+                            got=run.ghost['msgs'][n0:]; del run.ghost['msgs'][n0:]
+                            run.ghost['wire'].append((ch,deref(rw).vname,got[0][1] if got else None))
+                        except md.DeFail: run.ghost['wire'].append((ch,'DecodeErr',None))
+                except ms.SerError: run.ghost['wire'].append(('ser','SerErr',None))
             return (r1,r2,r3)
         return go
     # ------------------------------------------------------------------ scenario
@@ -87,7 +103,9 @@ class SignedBytes(Obligation):
         b=self.b; fb=lambda f,d: self.focus_bytes(run,f,d)
         name=fb('name','s0'); cmd=fb('command','arg'); so=fb('stdout','out'); se=fb('stderr','err'); ek=fb('env_key','K'); ev=fb('env_value','V')
         path=fb('path','a'); ok_=fb('other_key','x'); ov=fb('other_value','y')
-        dm=[z3.BitVec('dm',8),7]; dp=[z3.BitVec('dp',8)]; rv=z3.BitVec('rv',32) if run.ghost['focus']=='numbers' else [0,-1,7][run.pick(3,'rv')]
+        dm=[z3.BitVec('dm',8),7]; dp=[z3.BitVec('dp',8)]
+        if self.wire: dm=[0x24,7]; dp=[0xab]       # hex text is decoded again on the wire trip: concrete digests (hex round trips are C16's)
+        rv=z3.BitVec('rv',32) if run.ghost['focus']=='numbers' else [0,-1,7][run.pick(3,'rv')]
         link=b.struct('LinkMetadata',name=StringO(name),
             materials=b.btreemap([(Agg('VirtualTargetPath',[StringO(path)]),b.target_description(dm))]),
             products=b.btreemap([(b.vpath('p'),b.target_description(dp,'Sha512'))]),
@@ -127,6 +145,7 @@ class SignedBytes(Obligation):
         return lambda: b.wrap_layout(clone(lay)),tree
     def mk_args(self,run):
         foci=FOCI_LINK if self.what=='link' else FOCI_LAYOUT
+        if self.wire: foci=[f for f in foci if f!='numbers']      # two independent decimal renderings of one free number defeat the solver; numbers on the wire are C16's
         run.ghost['focus']=foci[run.pick(len(foci),'focus')]; run.ghost['fbytes']=[]
         mk,tree=self.mk_link(run) if self.what=='link' else self.mk_layout(run)
         return (mk(),mk(),mk()),{'tree':tree,'focus':run.ghost['focus'],'fbytes':run.ghost['fbytes'],'mk':mk}
@@ -153,10 +172,23 @@ class SignedBytes(Obligation):
             r,m=run.check_sat(z3.Not(z3.And(e1.z(),e2.z())))
             if r==z3.sat:
                 rec['viol']={'kind':'signer_and_verifier_bytes_differ','known_key':None,'scenario':self.scn(run,g,m,mv),'predicted':'mismatch','what':'Metablock::new / MetablockBuilder::sign / Metablock::verify do not derive the same signed bytes for the same metadata'}; return rec
+            for ch,st,wb in run.ghost.get('wire',[]):
+                rec['obl']+=1
+                if st!='Ok' or wb is None:
+                    r,m=run.check_sat(z3.BoolVal(True))
+                    sc=self.scn(run,g,m,mn); sc['wire_trip']=True
+                    rec['viol']={'kind':'own_signed_output_not_verifiable_after_wire_trip','known_key':None,'scenario':sc,'predicted':'match','confirm':{'wire_trip_verifies':False},'what':'metadata signed by Metablock::new, serialised and read back (%s channel) is rejected or does not reach signature verification: %s'%(ch,st)}; return rec
+                r,m=run.check_sat(z3.Not(bytes_eq(wb,mn).z()))
+                if r==z3.sat:
+                    sc=self.scn(run,g,m,mn); sc['wire_trip']=True
+                    rec['viol']={'kind':'wire_trip_changes_signed_bytes','known_key':None,'scenario':sc,'predicted':'match','confirm':{'wire_trip_verifies':False},'what':'the bytes verified after the JSON round trip (%s channel) differ from the bytes Metablock::new signed: the library\'s own signature no longer verifies'%ch}; return rec
+            if run.ghost.get('wire'): wit('wire_trip_verified')
             wit('sign_and_verify_bytes_equal'); wit('verified_bytes_read_back')
             if is_sample(run,self.seed,self.rate):
                 r,m=run.check_sat(z3.BoolVal(True))
-                if r==z3.sat: rec['sample']={'scenario':self.scn(run,g,m,mv),'expect':'match'}
+                if r==z3.sat:
+                    sc=self.scn(run,g,m,mv); rec['sample']={'scenario':sc,'expect':'match'}
+                    if self.wire: sc['wire_trip']=True; rec['sample']['confirm']={'wire_trip_verifies':True}
             return rec
         if self.prop=='C05':
             rec['obl']+=1
